@@ -200,6 +200,11 @@ pub fn take_panic_info() -> String {
 /// `file:line` part of a captured panic string, with the repo prefix removed (stable across checkouts)
 pub fn panic_site(p: &str) -> String {
     let loc = p.split(": ").next().unwrap_or("?");
+    if let Some(i) = loc.find("/registry/src/") {
+        // a dependency: <crate-version>/src/file.rs:line (the registry directory name is machine specific)
+        let rest = &loc[i + "/registry/src/".len()..];
+        return rest.splitn(2, '/').nth(1).unwrap_or(rest).to_string();
+    }
     let loc = loc.rsplit("/ruzstd/").next().unwrap_or(loc);
     loc.to_string()
 }
